@@ -29,7 +29,7 @@ from .common import hx, unhx
 PROP = "C12"
 EXE = "drv_c12"
 GEN_MODULES = ["Taproot", "VarInt"]
-RULE = ("one seeded PRNG draws script trees (random shapes, balanced, left/right chains to depth 128/129, "
+RULE = ("one seeded PRNG draws script trees (random shapes, balanced, left/right chains to depth 127/128 and, refused for their depth by _subtree_helper, 129/200/5000, "
         "duplicated leaves and subtrees), internal keys in every SEC spelling and both y parities, and every "
         "leaf index; each op line runs on the real taproot.* entry point under the named arithmetic arm and on "
         "the Lean model; non-trivial = the implementation answered (did not refuse); distinct = distinct "
@@ -69,6 +69,8 @@ def err_kind(e: BaseException) -> str:
         return "err stype"
     if c != "value":
         return "err " + (c if not c.startswith("foreign") else "foreign")
+    if "nesting levels" in m:
+        return "err deep"
     if "invalid script tree node" in m:
         return "err node"
     if "invalid script tree leaf" in m:
@@ -95,10 +97,27 @@ def err_kind(e: BaseException) -> str:
 # ------------------------------------------------------------------ trees
 # python tree: [(version, script_list)] | [left, right];  token: L.<v>.<hex> | N;<T>;<T>
 def tok_of(tree) -> str:
-    if len(tree) == 1:
-        v, script = tree[0]
-        return f"L.{v}.{hx(T.serialize(list(script)))}"
-    return "N;" + tok_of(tree[0]) + ";" + tok_of(tree[1])
+    out, todo = [], [tree]          # iterative: chains go thousands deep
+    while todo:
+        t = todo.pop()
+        if len(t) == 1:
+            v, script = t[0]
+            out.append(f"L.{v}.{hx(T.serialize(list(script)))}")
+        else:
+            out.append("N")
+            todo += [t[1], t[0]]
+    return ";".join(out)
+
+
+def depth_of(tree) -> int:
+    best, todo = 0, [(tree, 0)]
+    while todo:
+        t, d = todo.pop()
+        if len(t) == 1:
+            best = max(best, d)
+        else:
+            todo += [(t[0], d + 1), (t[1], d + 1)]
+    return best
 
 
 def tree_of(tok: str):
@@ -192,6 +211,14 @@ def chain(rng, depth, left, pool=None):
     return t
 
 
+def chain_on(rng, sub, depth):
+    """`sub` hung below a right-leaning chain of `depth` branches"""
+    t = sub
+    for _ in range(depth):
+        t = [rand_leaf(rng, None, big_ok=False), t]
+    return t
+
+
 def n_leaves(tree):
     n, todo = 0, [tree]
     while todo:
@@ -227,11 +254,15 @@ def gen_trees(ctx):
     out.append(("dup-subtree", [[dup, dup], [dup, [dup, dup]]]))      # equal child hashes: the k == e branch
     sub = rand_tree(rng, 3)
     out.append(("dup-subtree", [sub, sub]))
-    depths = [2, 7, 128] if ctx.tier == "quick" else [1, 2, 7, 31, 64, 127, 128]
+    depths = [2, 7, 127, 128] if ctx.tier == "quick" else [1, 2, 7, 31, 64, 127, 128]
     for d in depths:
         for left in (True, False):
             out.append(("chain-left" if left else "chain-right", chain(rng, d, left, [] if d > 8 else None)))
-    out.append(("chain-too-deep", chain(rng, 129, rng.random() < 0.5, [])))
+    for d in (129, 200, 5000):      # _subtree_helper refuses depth > MAX_TREE_DEPTH (and never recurses past it)
+        out.append(("chain-too-deep", chain(rng, d, rng.random() < 0.5, [])))
+    deep_mid = chain(rng, 100, True, [])          # too deep in the middle of a tree, right subtree
+    out.append(("chain-too-deep", [rand_leaf(rng), [rand_leaf(rng), deep_mid]]))
+    out[-1] = ("chain-too-deep", chain_on(rng, out[-1][1], 30))
     return out
 
 
@@ -947,6 +978,20 @@ def _o_p2tr_glue(w):
     return True, addr
 
 
+def _o_deep_refused(w):
+    """a script tree nested deeper than MAX_TREE_DEPTH is refused (library ValueError naming the nesting), never a
+    RecursionError, by tree_helper and by every entry point that walks it; one level less is accepted"""
+    tree = tree_of(w["tree"])
+    key = None if w["key"] is None else bytes.fromhex(w["key"])
+    with arm(w["arm"]):
+        for fn, args in ((T.tree_helper, (tree,)), (T.output_pubkey, (key, tree)), (T.output_prvkey, (int(w["d"]), tree)),
+                         (T.input_script_sig, (key, tree, 0)), (SPK.ScriptPubKey.p2tr, (key, tree))):
+            r = _call(fn, *args)
+            if r != ("err", "err deep"):
+                return False, f"{fn.__name__} on a tree of depth {depth_of(tree)} -> {r[0]} {str(r[1])[:80]}"
+    return True, f"depth {depth_of(tree)} refused"
+
+
 def _guard(fn):
     """an oracle that raises has found something: the real code left through an exception it should not"""
     def g(w):
@@ -961,7 +1006,7 @@ def _guard(fn):
 ORACLES = {"cb.proves": _o_proves, "cb.bitflip": _o_bitflip, "tweak.agree": _o_agree, "key.refused": _o_refuse,
            "tweak.range": _o_tweak_range, "backends.agree": _o_backends, "desc.tr": _o_desc, "bip341.vector": _o_bip341,
            "bip341.keypath": _o_keypath, "engine.spend": _o_engine,
-           "p2tr.glue": _o_p2tr_glue, "key.zero_padded": _o_zero_padded, "key.zero_padded.sane": _o_zero_padded_sane, "desc.ranged": _o_desc_ranged}
+           "p2tr.glue": _o_p2tr_glue, "deep.refused": _o_deep_refused, "key.zero_padded": _o_zero_padded, "key.zero_padded.sane": _o_zero_padded_sane, "desc.ranged": _o_desc_ranged}
 ORACLES = {k: _guard(v) for k, v in ORACLES.items()}
 
 
@@ -1012,7 +1057,7 @@ def run(ctx):
             trees.append(("bip341", _vec_tree(v["given"]["scriptTree"])))
 
     stk0 = tok_of([(0xC0, ["OP_1"])])
-    L = {k: [] for k in ("tree", "pathof", "leafhash", "outpub", "outpubroot", "outprv", "outprvroot", "iss", "check",
+    L = {k: [] for k in ("p2tr.deep", "tree", "pathof", "leafhash", "outpub", "outpubroot", "outprv", "outprvroot", "iss", "check",
                           "check.mutated", "malformed")}
     flips = []
     for kind, tree in trees:
@@ -1025,6 +1070,17 @@ def run(ctx):
             L["pathof"].append(f"pathof {tk} {i}")
         d = rng.randrange(1, N)
         sp = spellings(rng, d)
+        if depth_of(tree) > T.MAX_TREE_DEPTH:
+            # nested deeper than MAX_TREE_DEPTH: refused by tree_helper and by every entry point that walks the tree
+            ctx.count("too deep", str(depth_of(tree)))
+            for a in arms:
+                keyhex = rng.choice([hx(rng.choice(sp)[1]), "-"])
+                L["outpub"].append(f"outpub@{a} {keyhex} {tk}")
+                L["outprv"].append(f"outprv@{a} {d} {tk}")
+                L["iss"] += [f"iss@{a} {keyhex} {tk} {j}" for j in (0, nl - 1, nl)]
+                L["p2tr.deep"].append(f"p2trspk@{a} {keyhex} {tk}")
+                ctx.check("deep.refused", {"tree": tk, "key": None if keyhex == "-" else keyhex, "d": str(d), "arm": a})
+            continue
         ctx.count("internal key parity", "even" if mult(d)[1] % 2 == 0 else "odd")
         big = nl > 40
         for a in arms:
@@ -1184,13 +1240,23 @@ def run(ctx):
             a = rand_junk(rng)
             ctx.count("pytree shape", "junk")
         pys.append(decodec(a))
+    def hang(a, depth):             # `a` below a left-leaning chain of `depth` branches (so `a` sits at that depth)
+        for _ in range(depth):
+            a = ("T", rng.random() < 0.5, a, _GOOD_LEAF)
+        return a
+    for dd in (127, 128, 129, 130, 200):
+        for a in (_GOOD_LEAF, ("E", True), ("A", True, 0), ("M", False, 0), ("O", True, ("A", True, 1)),
+                  ("O", True, ("T", False, ("A", True, 3), ("C", b"\x51")))):
+            pys.append(hang(a, dd))
+    pys.append(("T", True, _GOOD_LEAF, hang(_GOOD_LEAF, 128)))       # too deep in the RIGHT subtree only
+    pys.append(("T", True, ("E", True), hang(_GOOD_LEAF, 128)))       # a bad left node is met first
     L["pytree"] = [f"pytree {py_tok(a)}" for a in pys]
     L["pyentry"] = []
     dk = rng.randrange(1, N)
     good = spellings(rng, dk)
     keys = [hx(s) for _, s in good] + ["-", "_", hx(bad_secs(rng, dk)[0]), hx(b"\x05" + good[0][1][1:]),
                                        hx(good[0][1][:5]), hx(good[0][1] + b"\x00"), hx(b"\x02" + P_FIELD.to_bytes(32, "big"))]
-    for a in FIXED_PY + rng.sample(pys[len(FIXED_PY):], ctx.n(40, 400)):
+    for a in FIXED_PY + pys[-32:] + rng.sample(pys[len(FIXED_PY):-32], ctx.n(40, 400)):
         tk = py_tok(a)
         for arm_ in arms:
             kk = rng.choice(keys)
@@ -1234,7 +1300,7 @@ def run(ctx):
     for name in ("tree", "pathof", "leafhash", "outpub", "outpubroot", "outprv", "outprvroot", "iss", "check", "check.mutated"):
         ctx.stream(name, L[name])
     ctx.stream("malformed", L["malformed"], nontrivial=lambda ln, out: True)
-    ctx.stream("p2tr", L["p2tr"], nontrivial=lambda ln, out: True)
+    ctx.stream("p2tr", L["p2tr"] + L["p2tr.deep"], nontrivial=lambda ln, out: True)
     ctx.stream("check.parity", L["check.parity"], nontrivial=lambda ln, out: True)
     ctx.stream("pytree", L["pytree"], nontrivial=lambda ln, out: True)
     ctx.stream("pyentry", L["pyentry"], nontrivial=lambda ln, out: True)
